@@ -479,6 +479,7 @@ pub fn io<const N: usize>(ctx: &mut Ctx) {
 /// random deeper sequences at larger capacities
 pub fn io_random<const N: usize>(ctx: &mut Ctx) {
     let total = ctx.args.num("ops", 20000);
+    ctx.can_skip = false;
     let mut rng = Rng::new(ctx.args.seed ^ hash64(&format!("io_random|{}|{}", N, ctx.args.shard.0)));
     let twins = twin_apis();
     let mut done = 0;
